@@ -1,8 +1,8 @@
 package transports
 
 import (
-	"compress/flate"
 	"compress/gzip"
+	"compress/zlib"
 	"io"
 	"net/http"
 	"strconv"
@@ -343,7 +343,8 @@ func (p *polling) compress(data types.BufferInterface, encoding string) (types.B
 			return nil, err
 		}
 	case "deflate":
-		fl, err := flate.NewWriter(buf, flate.DefaultCompression)
+		// the HTTP "deflate" coding is the zlib format (RFC 9110 8.4.1.2), not a raw DEFLATE stream
+		fl, err := zlib.NewWriterLevel(buf, zlib.DefaultCompression)
 		if err != nil {
 			return nil, err
 		}
